@@ -7,7 +7,7 @@ def key_fn(case, obs, verdict):
     v = v[4:] if v.startswith("BAD:") else v
     if v.startswith("outcome") or v.startswith("run-hang"):
         return "Engine.Run:" + v
-    if v.startswith("wait-hang") or v.startswith("goroutines"):
+    if v.startswith("wait-hang") or v.startswith("wait-early") or v.startswith("goroutines"):
         return "Engine.Wait:" + v
     if v.startswith("guns"):
         return "Gun.Close:" + v
@@ -24,6 +24,7 @@ def run(ctx):
         rule=("non-trivial: a component failure occurred, or a cancel was planned/happened, or the engine had >= 2 pools; "
               "distinct = distinct case lines (fault plan x cancel plan x pools)"),
         key_fn=key_fn, what_fn=what_fn,
+        translators=[("runasync", "RunAsyncGen.v")], bridge_files=["Gen/RunAsync_bridge.v"],
         trusted=[
             "extraction: ExtrOcamlBasic only; OCaml driver ocaml/C05/main.ml (history tokens -> model events) + ocaml/common/conv.ml",
             "correspondence harness harness/cmd/hC05: real engine.Engine with fault-plan mocks; the receive order of the await loop, "
